@@ -74,6 +74,11 @@ func mergeSlices(dest, src []any) []any {
 }
 
 func mergeMaps(dest, src map[string]any) map[string]any {
+	// the destination may still hold keys addressing nested properties (like 'config.subject'),
+	// which have to be expanded as well. Otherwise, the value is shadowed by, or shadows the
+	// expanded properties of the source
+	dest = maps.Unflatten(dest, ".")
+
 	for k, v := range maps.Unflatten(src, ".") {
 		old := dest[k]
 		if old == nil {
